@@ -368,6 +368,10 @@ impl Mapper<Size1GiB> for RecursivePageTable<'_> {
         if p3[page.p3_index()].is_unused() {
             return Err(FlagUpdateError::PageNotMapped);
         }
+        // The entry points to a level 2 table, so no 1GiB page is mapped here.
+        if !p3[page.p3_index()].flags().contains(Flags::HUGE_PAGE) {
+            return Err(FlagUpdateError::PageNotMapped);
+        }
         p3[page.p3_index()].set_flags(flags | Flags::HUGE_PAGE);
 
         Ok(MapperFlush::new(page))
@@ -417,6 +421,10 @@ impl Mapper<Size1GiB> for RecursivePageTable<'_> {
         let p3_entry = &p3[page.p3_index()];
 
         if p3_entry.is_unused() {
+            return Err(TranslateError::PageNotMapped);
+        }
+        // The entry points to a level 2 table, so no 1GiB page is mapped here.
+        if !p3_entry.flags().contains(PageTableFlags::HUGE_PAGE) {
             return Err(TranslateError::PageNotMapped);
         }
 
@@ -502,10 +510,17 @@ impl Mapper<Size2MiB> for RecursivePageTable<'_> {
         if p3[page.p3_index()].is_unused() {
             return Err(FlagUpdateError::PageNotMapped);
         }
+        if p3[page.p3_index()].flags().contains(Flags::HUGE_PAGE) {
+            return Err(FlagUpdateError::ParentEntryHugePage);
+        }
 
         let p2 = unsafe { &mut *(p2_ptr(page, self.recursive_index)) };
 
         if p2[page.p2_index()].is_unused() {
+            return Err(FlagUpdateError::PageNotMapped);
+        }
+        // The entry points to a level 1 table, so no 2MiB page is mapped here.
+        if !p2[page.p2_index()].flags().contains(Flags::HUGE_PAGE) {
             return Err(FlagUpdateError::PageNotMapped);
         }
 
@@ -575,11 +590,18 @@ impl Mapper<Size2MiB> for RecursivePageTable<'_> {
         if p3_entry.is_unused() {
             return Err(TranslateError::PageNotMapped);
         }
+        if p3_entry.flags().contains(PageTableFlags::HUGE_PAGE) {
+            return Err(TranslateError::ParentEntryHugePage);
+        }
 
         let p2 = unsafe { &*(p2_ptr(page, self.recursive_index)) };
         let p2_entry = &p2[page.p2_index()];
 
         if p2_entry.is_unused() {
+            return Err(TranslateError::PageNotMapped);
+        }
+        // The entry points to a level 1 table, so no 2MiB page is mapped here.
+        if !p2_entry.flags().contains(PageTableFlags::HUGE_PAGE) {
             return Err(TranslateError::PageNotMapped);
         }
 
@@ -670,11 +692,23 @@ impl Mapper<Size4KiB> for RecursivePageTable<'_> {
         if p3[page.p3_index()].is_unused() {
             return Err(FlagUpdateError::PageNotMapped);
         }
+        if p3[page.p3_index()]
+            .flags()
+            .contains(PageTableFlags::HUGE_PAGE)
+        {
+            return Err(FlagUpdateError::ParentEntryHugePage);
+        }
 
         let p2 = unsafe { &mut *(p2_ptr(page, self.recursive_index)) };
 
         if p2[page.p2_index()].is_unused() {
             return Err(FlagUpdateError::PageNotMapped);
+        }
+        if p2[page.p2_index()]
+            .flags()
+            .contains(PageTableFlags::HUGE_PAGE)
+        {
+            return Err(FlagUpdateError::ParentEntryHugePage);
         }
 
         let p1 = unsafe { &mut *(p1_ptr(page, self.recursive_index)) };
@@ -744,6 +778,12 @@ impl Mapper<Size4KiB> for RecursivePageTable<'_> {
         if p3[page.p3_index()].is_unused() {
             return Err(FlagUpdateError::PageNotMapped);
         }
+        if p3[page.p3_index()]
+            .flags()
+            .contains(PageTableFlags::HUGE_PAGE)
+        {
+            return Err(FlagUpdateError::ParentEntryHugePage);
+        }
 
         let p2 = unsafe { &mut *(p2_ptr(page, self.recursive_index)) };
         let p2_entry = &mut p2[page.p2_index()];
@@ -770,12 +810,18 @@ impl Mapper<Size4KiB> for RecursivePageTable<'_> {
         if p3_entry.is_unused() {
             return Err(TranslateError::PageNotMapped);
         }
+        if p3_entry.flags().contains(PageTableFlags::HUGE_PAGE) {
+            return Err(TranslateError::ParentEntryHugePage);
+        }
 
         let p2 = unsafe { &*(p2_ptr(page, self.recursive_index)) };
         let p2_entry = &p2[page.p2_index()];
 
         if p2_entry.is_unused() {
             return Err(TranslateError::PageNotMapped);
+        }
+        if p2_entry.flags().contains(PageTableFlags::HUGE_PAGE) {
+            return Err(TranslateError::ParentEntryHugePage);
         }
 
         let p1 = unsafe { &*(p1_ptr(page, self.recursive_index)) };
